@@ -109,8 +109,9 @@ def handle (_op : String) (args : List String) (impl : String) : String :=
   | none => badReq "cfg"
   | some r =>
     if !impl.startsWith "ok " then
-      -- the configurations generated for C06 are valid: an error is a tie problem, judged by the model run
-      answer "err" (if impl == "err" then "dontcare" else "fails:" ++ impl) "build-rejected"
+      -- the configurations generated for C06 are valid, the model builds every one of them: a rejected build is a
+      -- disagreement (model `ok` vs `err`), not something the spec can judge (nothing was built to read back)
+      answer "ok" (if impl == "err" then "dontcare" else "fails:" ++ impl) "build-rejected"
     else
       let head := (impl.splitOn " || ").headD ""
       let dump := " || ".intercalate ((impl.splitOn " || ").drop 1)
